@@ -340,7 +340,7 @@ func tail(s string, n int) string {
 // returns the path.
 func WriteReplay(root string, v Violation, tier string) string {
 	b, _ := json.MarshalIndent(map[string]any{
-		"property": v.Property, "tier": tier, "class": v.Class, "msg": v.Msg, "case": v.Case, "detail": v.Detail,
+		"property": v.Property, "tier": tier, "class": v.Class, "msg": v.Msg, "case": v.Case, "detail": v.Detail, "exe": v.Exe,
 	}, "", " ")
 	h := sha1.Sum(b)
 	dir := filepath.Join(root, "replays", v.Property)
